@@ -37,7 +37,7 @@ class C16(Prop):
         from rsocket.extensions.mimetypes import WellKnownMimeTypes
         names = [bytes(m.value.name) for m in WellKnownMimeTypes if m.value.id >= 0]
         out = []
-        n = 300 if tier == 'quick' else 8000
+        n = 600 if tier == 'quick' else 8000
         for _ in range(n):
             def period():
                 return rng.choice([500_000, 1_000, 1_500_000, 2_500_000, 600_000_000, 999_000, 1_001_000, rng.randint(1, 5_000) * 1000, rng.randint(1, 3_000_000),
